@@ -141,7 +141,15 @@ class BaseFileWriterSession(BaseWriterSession):
             _logger.exception('Failed to parse date.')
             return
 
-        last_modified = time.mktime(last_modified)
+        if not last_modified:
+            # parsedate() returns None for text that is not a date
+            return
+
+        try:
+            last_modified = time.mktime(last_modified)
+        except (OverflowError, ValueError):
+            _logger.exception('Failed to convert date.')
+            return
 
         os.utime(filename, (time.time(), last_modified))
 
